@@ -219,6 +219,7 @@ fn run(cfg: usize, w: &mut Tape, env: &EnvRef) -> RunResult {
         all_undefined: false,
         latin1: false,
         utf8: false,
+        other_cs: 0,
     };
     let mut model = restrict_to(&ds::gen_dataset(w, &gcfg), syn);
     let (strategy, lazy, name) = match cfg {
